@@ -10,6 +10,11 @@ R02.3 process_item_stack: split_off(parse_tree_stack.len() - productions[prod_nu
       prod_num that is handed to the semantic action; the children passed are exactly that split.
 R02.4 who_may_write(LLKParser.parse_tree_stack): push(N) in push_production, push(T(token)) in the T arm after consume,
       split_off in process_item_stack - nothing else.
+R02.7 the returned tree is built in prediction order: in the LL parser TreeConstruct::open_non_terminal is called only by
+      push_production (the production's node, named by the lhs of the same prod_num as the E marker, on every path that does
+      not trim) and by parse_into (the root, before the loop); close_non_terminal only by process_item_stack (every non-trim
+      path) and parse_into (root, behind the loop); add_token only by parse_into's T arm and handle_additional_tokens.  A node
+      that is opened anywhere else is not opened when its production is predicted, i.e. not below its parent.
 R02.5 T arm order: handle_additional_tokens -> consume -> pop parser stack -> push tree stack, each dominating the
       next, all on the `token_type == t` edge.
 """
@@ -247,8 +252,98 @@ def check(ctx):
     ctx.check(tp[0] == "agg" and tp[3] == "T", "R02.5", "parse_into|pushed-token", "T(token) is pushed",
               "unexpected tree-stack push in the T arm", where(pi, tpush[0].line), nontrivial=False)
 
+    tree_nodes_follow_prediction(ctx, facts, pi, pp, ps)
     # ---------------------------------------------------------------- R02.6
     # the derivation is over the input's *significant* tokens: which tokens are significant is decided by the
     # skip classification (C17 R17.1/R17.2), re-evaluated here
     from . import c17
     c17.check(ctx)
+
+
+
+def tree_nodes_follow_prediction(ctx, facts, pi, pp, ps):
+    """R02.7 (added after seed C02-c)"""
+    from .common import guards_on_all_paths
+    allowed = {"open_non_terminal": {ll.PUSH_PRODUCTION: "the node of the predicted production", ll.PARSE_INTO: "the root node"},
+               "close_non_terminal": {ll.PROCESS_ITEM_STACK: "the node of the finished production", ll.PARSE_INTO: "the root node"},
+               "add_token": {ll.PARSE_INTO: "the consumed token", ll.H_ADDITIONAL: "skipped tokens"}}
+    sites = {}
+    for b in facts.in_crate(RT):
+        root = b.root_fn(facts)
+        if not root.path.startswith(ll.P):
+            continue
+        for c in b.calls():
+            for nm in c.names():
+                if nm.startswith(ll.TC):
+                    m = nm[len(ll.TC):]
+                    if m not in allowed:
+                        continue
+                    sites.setdefault((m, root.path), []).append((b, c))
+                    ctx.check(root.path in allowed[m], "R02.7", "%s|%s|who-may-call" % (fn_key(b, facts), m),
+                              "%s is called by %s (%s)" % (m, short(root.path), allowed[m].get(root.path, "")),
+                              "the LL parser calls TreeConstruct::%s from %s: tree nodes are opened when a production is predicted "
+                              "(push_production) and closed when it is finished (process_item_stack); a node opened or closed "
+                              "elsewhere does not nest below the production that predicted it" % (m, short(root.path)),
+                              where(b, c.line))
+                    break
+    # exactly one site per role, unconditional except for the trim flag (and `?` error exits / the symbol loop's end)
+    def only_trim(b, c):
+        bad = []
+        for a, k, truth in guards_on_all_paths(b, c.bb):
+            if not k:
+                bad.append(a)
+            elif k[0] == "qm":
+                continue
+            elif k[0] == "field" and k[2] and k[2][-1] == "trim_parse_tree":
+                continue
+            elif k[0] == "disc-call" and "std::iter::Iterator::next" in k[1].names():
+                continue        # behind the loop that pushes the symbols
+            else:
+                bad.append(a)
+        return bad
+    for m, fn, body in (("open_non_terminal", ll.PUSH_PRODUCTION, pp), ("close_non_terminal", ll.PROCESS_ITEM_STACK, ps)):
+        ss = sites.get((m, fn), [])
+        if len(ss) != 1 or ss[0][0] is not body:
+            ctx.bad("R02.7", "%s|%s|one-site" % (short(fn), m), "expected exactly one %s call in %s itself, found %d: the number of "
+                    "opened and closed nodes per production can differ" % (m, short(fn), len(ss)), where(body))
+            continue
+        b, c = ss[0]
+        extra = only_trim(b, c)
+        reach_ret = [r for r in b.return_blocks() if r in cfg.reachable_from(b, 0, avoid_blocks=[c.bb])]
+        # paths that avoid the call: only the trim edge and error exits may do that
+        ctx.check(not extra, "R02.7", "%s|%s|unconditional-but-trim" % (short(fn), m),
+                  "%s is executed on every non-trimming, non-failing path" % m,
+                  "%s in %s is executed only under further conditions (branch blocks %s): some productions get no node, or the "
+                  "node is opened later than the prediction" % (m, short(fn), extra), where(b, c.line))
+    # the opened node is named by the production the marker stands for
+    ss = sites.get(("open_non_terminal", ll.PUSH_PRODUCTION), [])
+    if len(ss) == 1:
+        b, c = ss[0]
+        rp = raw_operand_place(b, c.args[1]) if len(c.args) > 1 else None
+        ok = False
+        if rp:
+            names = [e[2] for e in rp[1:] if isinstance(e, list) and e[0] == "f"]
+            idx = [e for e in rp[1:] if isinstance(e, list) and e[0] == "i"]
+            if "non_terminal_names" in names and idx:
+                ir = raw_place(b, [idx[0][1]])
+                inames = [e[2] for e in ir[1:] if isinstance(e, list) and e[0] == "f"]
+                ok = "lhs" in inames and "productions" in inames and prod_index_local(b, ir) == 3
+        ctx.check(ok, "R02.7", "push_production|node-named-by-marker-production",
+                  "the node is named non_terminal_names[productions[prod_num].lhs] with the prod_num of the E marker",
+                  "the node push_production opens is not named by the left-hand side of the production whose marker it pushes",
+                  where(b, c.line))
+    # root: opened before the loop, closed behind it
+    acc, loop = ll.main_loop(pi, cfg)
+    for m, want_before in (("open_non_terminal", True), ("close_non_terminal", False)):
+        for b, c in sites.get((m, ll.PARSE_INTO), []):
+            if b is not pi:
+                ctx.bad("R02.7", "parse_into|%s|in-closure" % m, "%s of the root node is called from a closure" % m, where(b, c.line))
+                continue
+            inloop = c.bb in loop[1]
+            dom = cfg.Dom(pi)
+            ok = not inloop and (dom.dominates(c.bb, loop[0]) if want_before else dom.dominates(loop[0], c.bb))
+            ctx.check(ok, "R02.7", "parse_into|%s|root-%s-loop" % (m, "before" if want_before else "behind"),
+                      "the root node is %s the parse loop" % ("opened before" if want_before else "closed behind"),
+                      "parse_into calls %s inside the parse loop or on the wrong side of it: only the root node is handled by "
+                      "parse_into itself" % m, where(pi, c.line))
+    ctx.require_floor("R02.7", "tree_construct_sites", sum(len(v) for v in sites.values()), 6)
